@@ -4,8 +4,10 @@ import (
 	"fmt"
 	"os"
 	"path/filepath"
+	"runtime"
 	"sort"
 	"strings"
+	"sync/atomic"
 	"time"
 
 	"verifsim/simkit"
@@ -29,9 +31,10 @@ func init() {
 }
 
 type linIn struct {
-	Kind string // w d r
-	Key  uint64
-	Val  int
+	Kind  string // w d r x
+	Key   uint64
+	Val   int
+	Fsync bool // batched (fsync) upload: informational, the model ignores it
 }
 type linOut struct {
 	OK       bool
@@ -53,7 +56,10 @@ type c38client struct {
 	call uint64
 	in   linIn
 	out  *linOut
+	fin  int32 // set (atomically) by the client goroutine once out is written
 }
+
+func (c *c38client) done() bool { return atomic.LoadInt32(&c.fin) == 1 }
 
 func genC38(tier string, seed uint64, idx int) *simkit.Plan {
 	rng := simkit.NewRand(seed)
@@ -82,6 +88,24 @@ func genC38(tier string, seed uint64, idx int) *simkit.Plan {
 			parked = false
 		case x < 38 && faults && stopping:
 			p.Add(simkit.St("syncfail", rng.Uint64()))
+		case x >= 92 && !parked:
+			// two operations truly overlap: the first stalls inside the data file (slow disk) with whatever lock
+			// it holds, the second is issued meanwhile
+			k := 1 + rng.Intn(keys)
+			k2 := k
+			if rng.Chance(1, 3) {
+				k2 = 1 + rng.Intn(keys)
+			}
+			fs := 0
+			if stopping && rng.Chance(1, 2) {
+				// the first operation is a batched upload: it is the volume's batch worker that stalls in the data file
+				fs = 1
+				if faults && rng.Chance(1, 2) {
+					p.Add(simkit.St("syncfail", rng.Uint64()))
+				}
+			}
+			p.Add(simkit.St("overlap", rng.Uint64(), "fsync", fs, "kind", []string{"d", "d", "w", "x"}[rng.Intn(4)], "key", k, "size", rng.Range(1, 64),
+				"kind2", []string{"d", "d", "w", "r"}[rng.Intn(4)], "key2", k2, "size2", rng.Range(1, 64)))
 		default:
 			// x = an upload presenting ANOTHER cookie: refused when the key holds a blob (a request that fails inside a batch)
 			kind := []string{"w", "w", "w", "d", "r", "r", "w", "x"}[rng.Intn(8)]
@@ -141,8 +165,11 @@ func execC38(r *simkit.Run) {
 					}
 				case "d":
 					n, _ := BuildNeedle(WriteArgs{Key: c.in.Key, Cookie: CookieOf(c.in.Key)}, 0)
-					_, err := st.DeleteVolumeNeedle(VID, n)
+					sz, err := st.DeleteVolumeNeedle(VID, n)
 					out.OK = err == nil
+					if sz > 0 {
+						out.Val = 1 // something was removed
+					}
 					if err != nil {
 						out.Err = err.Error()
 					}
@@ -168,13 +195,14 @@ func execC38(r *simkit.Run) {
 					}
 				}
 				c.out = out
+				atomic.StoreInt32(&c.fin, 1)
 			}
 		}()
 	}
 	collect := func() {
 		// record returns of every operation that has completed, in client order
 		for _, c := range clients {
-			if c.busy && c.out != nil {
+			if c.busy && c.done() {
 				ret := r.Seq()
 				h.ops = append(h.ops, porcupine.Operation{ClientId: c.id, Input: c.in, Call: int64(c.call), Output: *c.out, Return: int64(ret)})
 				d := fmt.Sprintf("c%d %s key=%d val=%d [%d,%d] -> ok=%v nf=%v val=%d err=%s", c.id, c.in.Kind, c.in.Key, c.in.Val, c.call, ret, c.out.OK, c.out.NotFound, c.out.Val, c.out.Err)
@@ -185,19 +213,24 @@ func execC38(r *simkit.Run) {
 				}
 				r.Abs(fmt.Sprintf("ret:%s:%v", c.in.Kind, c.out.OK))
 				c.busy, c.out = false, nil
+				atomic.StoreInt32(&c.fin, 0)
 			}
 		}
 	}
-	issue := func(c *c38client, s *simkit.Step) {
-		c.in = linIn{Kind: s.Str("kind"), Key: uint64(s.Int("key"))}
+	prep := func(c *c38client, s *simkit.Step) {
+		c.in = linIn{Kind: s.Str("kind"), Key: uint64(s.Int("key")), Fsync: s.Int("fsync") == 1}
 		if c.in.Kind == "w" || c.in.Kind == "x" {
 			valCounter++
 			c.in.Val = valCounter
 		}
 		c.busy, c.out = true, nil
+		atomic.StoreInt32(&c.fin, 0)
 		c.call = r.Seq()
 		r.Log("invoke c%d %s key=%d val=%d fsync=%d", c.id, c.in.Kind, c.in.Key, c.in.Val, s.Int("fsync"))
 		r.Abs("inv:" + c.in.Kind)
+	}
+	issue := func(c *c38client, s *simkit.Step) {
+		prep(c, s)
 		c.gate <- s
 		simkit.Wait()
 		collect()
@@ -225,6 +258,55 @@ func execC38(r *simkit.Run) {
 				r.Probe("two-or-more-operations-in-flight")
 				r.NonTrivial()
 			}
+		case "overlap":
+			a, b := clients[0], clients[1]
+			if a.busy || b.busy {
+				continue
+			}
+			sa := simkit.St("op", s.Seed, "client", 0, "kind", s.Str("kind"), "key", s.Int("key"), "size", s.Int("size"), "fsync", s.Int("fsync"))
+			if sa.Str("kind") != "w" {
+				sa.A["fsync"] = 0
+			}
+			sb := simkit.St("op", simkit.Mix(s.Seed, 2), "client", 1, "kind", s.Str("kind2"), "key", s.Int("key2"), "size", s.Int("size2"), "fsync", 0)
+			release := ff.ParkNextStat()
+			issue(a, &sa) // returns once the first operation is parked inside the data file (or has finished)
+			stalled := atomic.LoadInt32(&ff.Parked) == 1
+			// the second operation may now wait for a lock the first one holds (a sync.Mutex wait is not something
+			// the bubble can wait out), so from here on no quiescence wait: spin, watch, release
+			prep(b, &sb)
+			b.gate <- &sb
+			overlapped := false
+			for i := 0; i < 3000 && stalled; i++ {
+				if b.busy && b.done() {
+					overlapped = true
+					break
+				}
+				runtime.Gosched()
+			}
+			if overlapped {
+				collect() // the second operation returned while the first was still inside the data file
+				r.Probe("second-operation-completed-while-first-stalled-in-the-data-file")
+			}
+			release()
+			for i := 0; (a.busy && !a.done()) || (b.busy && !b.done()); i++ {
+				runtime.Gosched()
+				if i > 100000000 {
+					r.HarnessError("overlapping operations did not finish")
+					return
+				}
+			}
+			simkit.Wait()
+			collect()
+			if stalled {
+				r.Fault("operation-stalled-in-data-file-while-another-is-issued")
+				r.NonTrivial()
+			}
+			// what the two operations left behind is read back at once
+			for _, k := range []int64{s.Int("key"), s.Int("key2")} {
+				rs := simkit.St("op", 0, "client", 0, "kind", "r", "key", k)
+				issue(clients[0], &rs)
+			}
+			r.Abs("overlap")
 		case "park":
 			gates.Arm("vol.worker.afterRecv")
 			r.Abs("park")
@@ -311,6 +393,10 @@ var registerModel = porcupine.NondeterministicModel{
 			return []interface{}{s, -in.Val}
 		case "d":
 			if out.OK {
+				// a delete reports whether it removed something: exactly one of two deletes of a blob does
+				if (out.Val > 0) != (s != 0) {
+					return nil
+				}
 				return []interface{}{0}
 			}
 			return []interface{}{s, 0}
@@ -340,19 +426,66 @@ func checkC38(r *simkit.Run) {
 	if h == nil || len(h.ops) == 0 || r.Violated() || r.Res.HarnessError != "" {
 		return
 	}
-	res := porcupine.CheckOperationsTimeout(registerModel.ToModel(), h.ops, 20*time.Second)
-	switch res {
-	case porcupine.Illegal:
-		key := "register"
-		if h.syncFailed {
-			key = "history-with-failed-fsync-batch"
+	// each key is judged on its own: the recorded fsync-rollback finding explains an illegal history only for a
+	// key that was itself written in a failed batch
+	byKey := map[uint64][]porcupine.Operation{}
+	var keys []uint64
+	for _, o := range h.ops {
+		k := o.Input.(linIn).Key
+		if _, ok := byKey[k]; !ok {
+			keys = append(keys, k)
 		}
-		msg := ""
-		for _, d := range h.desc {
-			msg += "\n  " + d
+		byKey[k] = append(byKey[k], o)
+	}
+	sort.Slice(keys, func(i, j int) bool { return keys[i] < keys[j] })
+	for _, k := range keys {
+		// the part of the key's history that lies before its first write in a failed batch is judged strictly;
+		// the whole history only with the recorded finding's key
+		taintCall := int64(-1)
+		for _, o := range byKey[k] {
+			if in, out := o.Input.(linIn), o.Output.(linOut); h.syncFailed && in.Fsync && !out.OK {
+				if taintCall < 0 || o.Call < taintCall {
+					taintCall = o.Call
+				}
+			}
 		}
-		r.Violate("not-linearizable", key, "no sequential order of these operations respects their real-time order and results:%s", msg)
-	case porcupine.Unknown:
-		r.Inconclusive("porcupine timed out on %d operations", len(h.ops))
+		strict := byKey[k]
+		if taintCall >= 0 {
+			strict = nil
+			for _, o := range byKey[k] {
+				if o.Return < taintCall {
+					strict = append(strict, o)
+				}
+			}
+		}
+		describe := func() string {
+			msg := ""
+			for _, d := range h.desc {
+				msg += "\n  " + d
+			}
+			return msg
+		}
+		for _, o := range strict {
+			if in, out := o.Input.(linIn), o.Output.(linOut); in.Kind == "r" && !out.OK {
+				r.Violate("read-error", "key-not-written-in-any-failed-batch", "a read of key %d failed (%s) although no operation on that key had been part of a failed batch:%s", k, out.Err, describe())
+				return
+			}
+		}
+		for pass, ops := range [][]porcupine.Operation{strict, byKey[k]} {
+			if len(ops) == 0 || (pass == 1 && taintCall < 0) {
+				continue
+			}
+			switch porcupine.CheckOperationsTimeout(registerModel.ToModel(), ops, 20*time.Second) {
+			case porcupine.Illegal:
+				key := "register"
+				if pass == 1 {
+					key = "history-with-failed-fsync-batch"
+				}
+				r.Violate("not-linearizable", key, "no sequential order of the operations on key %d respects their real-time order and results:%s", k, describe())
+				return
+			case porcupine.Unknown:
+				r.Inconclusive("porcupine timed out on %d operations", len(ops))
+			}
+		}
 	}
 }
